@@ -8,7 +8,8 @@ are either delivered to the sink or still pending in the buffer; at any call std
 push any amount of pending bytes; a push the sink does not take completely makes the call
 report failure and sets the sticky error indicator.  Which pushes happen, and whether the
 sink takes them, is chosen by an oracle (`Outcome` per call) — the theorems quantify over all
-oracles, i.e. over every buffering policy and every failure point.
+oracles, i.e. over every buffering policy and every failure point.  After a failed push the
+bytes not taken are either still pending (`fail`) or, wholly or in part, lost (`drop`).
 -/
 namespace Carquet.Impl.Sink
 
@@ -24,13 +25,20 @@ structure Stream where
 inductive Outcome where
   /-- stdio pushes the first `k` pending bytes (after appending the new data) and the sink takes them -/
   | push (k : Nat)
-  /-- stdio tries to push `k` bytes, the sink takes only `t` of them (`t < k`), or reports an error -/
+  /-- stdio tries to push `k` bytes, the sink takes only `t` of them (`t < k`), or reports an error;
+  everything not taken stays pending -/
   | fail (k t : Nat)
+  /-- a failing push after which stdio does not keep what was left: the sink takes `t` bytes, of
+  the rest only the first `m` stay pending, the others are discarded (C leaves the buffer
+  contents after a write error unspecified; glibc resets the buffer: `m = 0`; bytes of a failed
+  `fwrite` that were never accepted are gone in every implementation) -/
+  | drop (t m : Nat)
   deriving DecidableEq, Repr
 
 def Outcome.isFail : Outcome → Bool
   | .push _ => false
   | .fail _ _ => true
+  | .drop _ _ => true
 
 /-- `fwrite(data, 1, n, f) == n` ?  -/
 def fwrite (s : Stream) (data : Bytes) : Outcome → Stream × Bool
@@ -40,11 +48,15 @@ def fwrite (s : Stream) (data : Bytes) : Outcome → Stream × Bool
   | .fail k t =>
     ({ delivered := s.delivered ++ (s.pending ++ data).take (min t k),
        pending := (s.pending ++ data).drop (min t k), err := true }, false)
+  | .drop t m =>
+    ({ delivered := s.delivered ++ (s.pending ++ data).take t,
+       pending := ((s.pending ++ data).drop t).take m, err := true }, false)
 
 /-- `fflush(f) == 0` ?  a successful flush pushes everything -/
 def fflush (s : Stream) : Outcome → Stream × Bool
   | .push _ => ({ delivered := s.delivered ++ s.pending, pending := [], err := s.err }, true)
   | .fail _ t => ({ delivered := s.delivered ++ s.pending.take t, pending := s.pending.drop t, err := true }, false)
+  | .drop t m => ({ delivered := s.delivered ++ s.pending.take t, pending := (s.pending.drop t).take m, err := true }, false)
 
 /-- `fclose(f) == 0` ?  (flushes what is pending) -/
 def fclose (s : Stream) (o : Outcome) : Stream × Bool := fflush s o
